@@ -132,6 +132,17 @@ def gen_cases(ctx):
         s1 = perm_spec(s0)
         s2 = perm_spec(s1)
         cases.append({"kind": "triple", "specs": [s0, s1, s2]})
+    # conductive fully anisotropic block (lossy 9-component update: all six off-diagonal couplings and their co-location stencils)
+    eps9 = [2.0, 0.3, 0.1, 0.3, 2.5, 0.2, 0.1, 0.2, 3.0]
+    sig9 = [2.0e4, 3.0e3, 1.0e3, 3.0e3, 1.5e4, 2.0e3, 1.0e3, 2.0e3, 2.5e4]
+    s0 = {"shape": [6, 5, 7], "spacing": 5e-8, "steps": ctx.pick(5, 8), "thickness": 1,
+          "bt": {"min_x": "pec", "max_x": "pmc", "min_y": "periodic", "max_y": "periodic", "min_z": "pmc", "max_z": "pec"},
+          "sources": [{"kind": "dipole", "cell": [2, 2, 3], "pol": ctx.rng.randint(0, 2)}, {"kind": "dipole", "cell": [3, 1, 2], "pol": ctx.rng.randint(0, 2), "mag": True}],
+          "detectors": [{"kind": "field", "box": [[1, 5], [0, 5], [1, 6]], "name": "fd", "opts": {"exact_interpolation": False}}],
+          "blocks": [{"box": [[1, 5], [0, 4], [1, 5]], "eps": eps9, "sigma_e": ctx.rng.choice([2.0e4, sig9])}]}
+    s1 = perm_spec(s0)
+    s2 = perm_spec(s1)
+    cases.append({"kind": "triple", "specs": [s0, s1, s2]})
     # model tie: a small PML-free scene in three orientations, stepped by forward()
     m0 = {"shape": [3, 4, 5], "spacing": 5e-8, "courant": "exact_half", "steps": 2,
           "bt": {"min_x": "pec", "max_x": "pmc", "min_y": "periodic", "max_y": "periodic", "min_z": "pmc", "max_z": "pec"},
